@@ -3,9 +3,9 @@ package main
 import (
 	"fmt"
 
-	"golang.org/x/tools/go/ssa"
 	"go/token"
 	"go/types"
+	"golang.org/x/tools/go/ssa"
 	"strings"
 )
 
@@ -22,61 +22,85 @@ var modelEffects = map[string][]string{
 	"time.Since": {"ghostbv.clock"},
 
 	"google.golang.org/protobuf/types/known/anypb.New": {"ghost.marshalfail"},
-	"(encoding/binary.bigEndian).PutUint16":    {"E:uint8"},
-	"(encoding/binary.bigEndian).PutUint32":    {"E:uint8"},
-	"(encoding/binary.bigEndian).PutUint64":    {"E:uint8"},
-	"(encoding/binary.littleEndian).PutUint32": {"E:uint8"},
-	"(*sync.Mutex).Lock":                       nil,
-	"(*sync.Mutex).Unlock":                     nil,
+	"(encoding/binary.bigEndian).PutUint16":            {"E:uint8"},
+	"(encoding/binary.bigEndian).PutUint32":            {"E:uint8"},
+	"(encoding/binary.bigEndian).PutUint64":            {"E:uint8"},
+	"(encoding/binary.littleEndian).PutUint32":         {"E:uint8"},
+	"(*sync.Mutex).Lock":                               nil,
+	"(*sync.Mutex).Unlock":                             nil,
 }
 
 func init() {
 	models = map[string]modelFn{
-		"(encoding/binary.bigEndian).Uint16":       func(x *Exec, st *State, a []*Val, s *types.Signature, p token.Pos) *Val { return x.mGetUint(st, a[1], 2, true, s, p) },
-		"(encoding/binary.bigEndian).Uint32":       func(x *Exec, st *State, a []*Val, s *types.Signature, p token.Pos) *Val { return x.mGetUint(st, a[1], 4, true, s, p) },
-		"(encoding/binary.bigEndian).Uint64":       func(x *Exec, st *State, a []*Val, s *types.Signature, p token.Pos) *Val { return x.mGetUint(st, a[1], 8, true, s, p) },
-		"(encoding/binary.littleEndian).Uint32":    func(x *Exec, st *State, a []*Val, s *types.Signature, p token.Pos) *Val { return x.mGetUint(st, a[1], 4, false, s, p) },
-		"(encoding/binary.littleEndian).Uint64":    func(x *Exec, st *State, a []*Val, s *types.Signature, p token.Pos) *Val { return x.mGetUint(st, a[1], 8, false, s, p) },
-		"(encoding/binary.bigEndian).PutUint16":    func(x *Exec, st *State, a []*Val, s *types.Signature, p token.Pos) *Val { return x.mPutUint(st, a[1], a[2], 2, p) },
-		"(encoding/binary.bigEndian).PutUint32":    func(x *Exec, st *State, a []*Val, s *types.Signature, p token.Pos) *Val { return x.mPutUint(st, a[1], a[2], 4, p) },
-		"(encoding/binary.bigEndian).PutUint64":    func(x *Exec, st *State, a []*Val, s *types.Signature, p token.Pos) *Val { return x.mPutUint(st, a[1], a[2], 8, p) },
-		"(*sync.Once).Do":                          mOnceDo,
-		"(*sync.Mutex).Lock":                       mLock,
-		"(*sync.Mutex).Unlock":                     mUnlock,
-		"(*sync.RWMutex).Lock":                     mLock,
-		"(*sync.RWMutex).Unlock":                   mUnlock,
-		"(*sync.RWMutex).RLock":                    mLock,
-		"(*sync.RWMutex).RUnlock":                  mUnlock,
-		"math/bits.TrailingZeros32":                mTrailingZeros32,
-		"errors.New":                               mNewError,
-		"fmt.Errorf":                               mNewError,
-		"fmt.Sprintf":                              mFreshPure,
-		"fmt.Sprint":                               mFreshPure,
-		"fmt.Sprintln":                             mFreshPure,
-		"errors.Is":                                mErrorsIs,
-		"(error).Error":                            mFreshPure,
-		"encoding/json.Unmarshal":                  mHavocPointee(1),
-		"google.golang.org/protobuf/types/known/anypb.New": mAnyNew,
-		"context.WithTimeout":                      mContextWith,
-		"context.WithCancel":                       mContextWith,
-		"context.WithDeadline":                     mContextWith,
-		"context.Background":                       mNonNilIface,
-		"context.TODO":                             mNonNilIface,
-		"(*sync.Map).Load":                         mSyncMapLoad,
-		"(*sync.Map).Store":                        mSyncMapStore,
-		"(*sync.Map).Delete":                       mSyncMapDelete,
-		"github.com/google/gopacket.NewSerializeBuffer":                                      mNewSerializeBuffer,
-		"github.com/google/gopacket.SerializeLayers":                                         mSerializeLayers,
-		"(github.com/google/gopacket.SerializeBuffer).Bytes":                                 mSerializeBytes,
-		"(*github.com/google/gopacket/layers.tcpipchecksum).SetNetworkLayerForChecksum":      mFreshPure,
-		"(*sync.Pool).Get":                         mFreshPure, // some object that already exists (or a new one): arbitrary interface value
-		"(*sync.Pool).Put":                         func(x *Exec, st *State, a []*Val, s *types.Signature, p token.Pos) *Val { return nil },
-		"time.Now":                                 mTimeNow,
-		"time.Since":                               mTimeSince,
-		"(time.Time).IsZero":                       func(x *Exec, st *State, a []*Val, s *types.Signature, p token.Pos) *Val { return scalar(types.Typ[types.Bool], eq(a[0].S, "(_ bv0 64)"), "Bool") },
-		"(time.Time).After":                        func(x *Exec, st *State, a []*Val, s *types.Signature, p token.Pos) *Val { return scalar(types.Typ[types.Bool], "(bvsgt "+a[0].S+" "+a[1].S+")", "Bool") },
-		"(time.Time).Before":                       func(x *Exec, st *State, a []*Val, s *types.Signature, p token.Pos) *Val { return scalar(types.Typ[types.Bool], "(bvslt "+a[0].S+" "+a[1].S+")", "Bool") },
-		"(time.Time).Sub":                          func(x *Exec, st *State, a []*Val, s *types.Signature, p token.Pos) *Val { return scalar(s.Results().At(0).Type(), "(bvsub "+a[0].S+" "+a[1].S+")", bvSort(64)) },
+		"(encoding/binary.bigEndian).Uint16": func(x *Exec, st *State, a []*Val, s *types.Signature, p token.Pos) *Val {
+			return x.mGetUint(st, a[1], 2, true, s, p)
+		},
+		"(encoding/binary.bigEndian).Uint32": func(x *Exec, st *State, a []*Val, s *types.Signature, p token.Pos) *Val {
+			return x.mGetUint(st, a[1], 4, true, s, p)
+		},
+		"(encoding/binary.bigEndian).Uint64": func(x *Exec, st *State, a []*Val, s *types.Signature, p token.Pos) *Val {
+			return x.mGetUint(st, a[1], 8, true, s, p)
+		},
+		"(encoding/binary.littleEndian).Uint32": func(x *Exec, st *State, a []*Val, s *types.Signature, p token.Pos) *Val {
+			return x.mGetUint(st, a[1], 4, false, s, p)
+		},
+		"(encoding/binary.littleEndian).Uint64": func(x *Exec, st *State, a []*Val, s *types.Signature, p token.Pos) *Val {
+			return x.mGetUint(st, a[1], 8, false, s, p)
+		},
+		"(encoding/binary.bigEndian).PutUint16": func(x *Exec, st *State, a []*Val, s *types.Signature, p token.Pos) *Val {
+			return x.mPutUint(st, a[1], a[2], 2, p)
+		},
+		"(encoding/binary.bigEndian).PutUint32": func(x *Exec, st *State, a []*Val, s *types.Signature, p token.Pos) *Val {
+			return x.mPutUint(st, a[1], a[2], 4, p)
+		},
+		"(encoding/binary.bigEndian).PutUint64": func(x *Exec, st *State, a []*Val, s *types.Signature, p token.Pos) *Val {
+			return x.mPutUint(st, a[1], a[2], 8, p)
+		},
+		"(*sync.Once).Do":           mOnceDo,
+		"(*sync.Mutex).Lock":        mLock,
+		"(*sync.Mutex).Unlock":      mUnlock,
+		"(*sync.RWMutex).Lock":      mLock,
+		"(*sync.RWMutex).Unlock":    mUnlock,
+		"(*sync.RWMutex).RLock":     mLock,
+		"(*sync.RWMutex).RUnlock":   mUnlock,
+		"math/bits.TrailingZeros32": mTrailingZeros32,
+		"errors.New":                mNewError,
+		"fmt.Errorf":                mNewError,
+		"fmt.Sprintf":               mFreshPure,
+		"fmt.Sprint":                mFreshPure,
+		"fmt.Sprintln":              mFreshPure,
+		"errors.Is":                 mErrorsIs,
+		"(error).Error":             mFreshPure,
+		"encoding/json.Unmarshal":   mHavocPointee(1),
+		"google.golang.org/protobuf/types/known/anypb.New":   mAnyNew,
+		"context.WithTimeout":                                mContextWith,
+		"context.WithCancel":                                 mContextWith,
+		"context.WithDeadline":                               mContextWith,
+		"context.Background":                                 mNonNilIface,
+		"context.TODO":                                       mNonNilIface,
+		"(*sync.Map).Load":                                   mSyncMapLoad,
+		"(*sync.Map).Store":                                  mSyncMapStore,
+		"(*sync.Map).Delete":                                 mSyncMapDelete,
+		"github.com/google/gopacket.NewSerializeBuffer":      mNewSerializeBuffer,
+		"github.com/google/gopacket.SerializeLayers":         mSerializeLayers,
+		"(github.com/google/gopacket.SerializeBuffer).Bytes": mSerializeBytes,
+		"(*github.com/google/gopacket/layers.tcpipchecksum).SetNetworkLayerForChecksum": mFreshPure,
+		"(*sync.Pool).Get": mFreshPure, // some object that already exists (or a new one): arbitrary interface value
+		"(*sync.Pool).Put": func(x *Exec, st *State, a []*Val, s *types.Signature, p token.Pos) *Val { return nil },
+		"time.Now":         mTimeNow,
+		"time.Since":       mTimeSince,
+		"(time.Time).IsZero": func(x *Exec, st *State, a []*Val, s *types.Signature, p token.Pos) *Val {
+			return scalar(types.Typ[types.Bool], eq(a[0].S, "(_ bv0 64)"), "Bool")
+		},
+		"(time.Time).After": func(x *Exec, st *State, a []*Val, s *types.Signature, p token.Pos) *Val {
+			return scalar(types.Typ[types.Bool], "(bvsgt "+a[0].S+" "+a[1].S+")", "Bool")
+		},
+		"(time.Time).Before": func(x *Exec, st *State, a []*Val, s *types.Signature, p token.Pos) *Val {
+			return scalar(types.Typ[types.Bool], "(bvslt "+a[0].S+" "+a[1].S+")", "Bool")
+		},
+		"(time.Time).Sub": func(x *Exec, st *State, a []*Val, s *types.Signature, p token.Pos) *Val {
+			return scalar(s.Results().At(0).Type(), "(bvsub "+a[0].S+" "+a[1].S+")", bvSort(64))
+		},
 	}
 	for k, v := range gsModelTable {
 		models[k] = v
@@ -336,10 +360,10 @@ func mAnyNew(x *Exec, st *State, a []*Val, s *types.Signature, p token.Pos) *Val
 // single-goroutine view used here says nothing about interleavings between operations.
 
 type smComps struct {
-	pres, tag, ref       *HeapSym
-	pk, tk, rk           string
-	pci, tci, rci        compInfo
-	ks                   string
+	pres, tag, ref *HeapSym
+	pk, tk, rk     string
+	pci, tci, rci  compInfo
+	ks             string
 }
 
 func (x *Exec) smKeys(root types.Type, path []int, str bool) (pk, tk, rk, ks string) {
